@@ -62,12 +62,14 @@ type sbrCase struct {
 	NumParallel int         `json:"num_parallel"` // 0 = automatic
 	MaxQueue    int         `json:"max_queue"`
 	KeepAlive   int         `json:"keep_alive"` // index into sbKeepEnv
+	LoadTimeout int         `json:"load_timeout,omitempty"` // index into sbrLoadTimeouts (OLLAMA_LOAD_TIMEOUT: the stall limit of a model load; nothing else may depend on it)
 	Inventory   int         `json:"inventory"`  // 0 cpu, 1..3 single-GPU libraries
 	Room        int         `json:"room"`       // index into sbRoom
 	NModels     int         `json:"n_models"`   // 2..4 models created through the API (model 3 is an embedding model)
 	Gated       []bool      `json:"gated"`
 	AutoFail    []bool      `json:"auto_fail"`
 	CloseUs     int         `json:"close_us"`
+	CloseErr    []bool      `json:"close_err,omitempty"`
 	Perturb     uint32      `json:"perturb"`
 	Actions     []sbrAction `json:"actions"`
 }
@@ -99,6 +101,7 @@ func sbrGen(t *rapid.T) sbrCase {
 	c.NumParallel = rapid.SampledFrom([]int{0, 1, 2}).Draw(t, "num_parallel")
 	c.MaxQueue = rapid.SampledFrom([]int{2, 3, 4, 6}).Draw(t, "max_queue")
 	c.KeepAlive = rapid.IntRange(0, len(sbKeepEnv)-1).Draw(t, "keep_alive")
+	c.LoadTimeout = rapid.IntRange(0, len(sbrLoadTimeouts)-1).Draw(t, "load_timeout")
 	c.Inventory = rapid.SampledFrom([]int{0, 1, 1, 2, 3}).Draw(t, "inventory")
 	c.Room = rapid.IntRange(0, len(sbRoom)-1).Draw(t, "room")
 	c.NModels = rapid.IntRange(2, 4).Draw(t, "n_models")
@@ -107,6 +110,9 @@ func sbrGen(t *rapid.T) sbrCase {
 	}
 	c.AutoFail = rapid.SliceOfN(rapid.SampledFrom([]bool{false, false, false, true}), 6, 6).Draw(t, "auto_fail")
 	c.CloseUs = rapid.SampledFrom([]int{0, 0, 40, 150, 400}).Draw(t, "close_us")
+	if rapid.IntRange(0, 2).Draw(t, "has_close_err") == 0 {
+		c.CloseErr = rapid.SliceOfN(rapid.SampledFrom([]bool{true, true, false}), 4, 4).Draw(t, "close_err")
+	}
 	if rapid.IntRange(0, 2).Draw(t, "perturbed") > 0 {
 		c.Perturb = rapid.Uint32Range(1, 1<<30).Draw(t, "perturb")
 	}
